@@ -208,6 +208,12 @@ def fixed_programs():
                     funs=[tf], exns=["Ex0", "Ex1"]))
     # finding C12 javac-fail "not a statement": an unused Boolean initialised by `not (call)` (visible at -Q1)
     out.append(prog("F1_unused_not", [gvar("g7", BOOL, prim("bool.not", prim("si.lt", lit(SI, -8), lit(SI, -1)))), stmt(pr(lit(SI, 1)))]))
+    # finding C12 compile-reject (front end): overloaded empty? in a file-level conditional expression
+    out.append(prog("F2_file_level_if_overload", [
+        gvar("g1", LSI, {"e": "list", "t": LSI, "args": [lit(SI, 1), lit(SI, 2)]}),
+        stmt({"e": "asg", "x": "g1", "v": iff({"e": "empty", "l": var("g1")}, {"e": "cons", "t": LSI, "h": lit(SI, -4), "tl": var("g1")},
+                                              {"e": "list", "t": LSI, "args": [lit(SI, 7)]}, LSI)}),
+        stmt(pr({"e": "first", "l": var("g1")}))]))
     # outside the family: the result depends on the width of the machine integer
     out.append(prog("X_width_add", [gvar("a", SI, lit(SI, 2147483647)), stmt(pr(prim("si.add", var("a"), lit(SI, 1))))]))
     out.append(prog("X_width_mul", [gvar("a", SI, lit(SI, 65536)), stmt(pr(prim("si.tobi", prim("si.mul", var("a"), var("a")))))]))
